@@ -279,7 +279,6 @@ Theorem naptr_canonical_bytewise o1 p1 f1 s1 r1 n1 o2 p2 f2 s2 r2 n2 :
 Proof. unfold rd_naptr. schema_instance. Qed.
 
 (* TSIG, OPT and IPSECKEY with an address (or no) gateway *)
-Definition be48 (n : N) : bytes := be16 (n / 4294967296) ++ be32 (n mod 4294967296).
 Lemma be48_cmp a b : a < 281474976710656 -> b < 281474976710656 -> lex_cmp (be48 a) (be48 b) = (a ?= b).
 Proof.
   intros Ha Hb. unfold be48. rewrite lex_cmp_app by reflexivity. rewrite be16_cmp, be32_cmp by lia.
